@@ -148,6 +148,9 @@ type Raft struct {
 	// A channel used to respond to membership change requests.
 	configurationResponseCh chan Result[Configuration]
 
+	// The log index of the configuration entry that the response channel belongs to.
+	configurationResponseIndex uint64
+
 	// Maps ID to the state of the other nodes in the cluster.
 	// Maintained by the leader.
 	followers map[string]*follower
@@ -634,6 +637,8 @@ func (r *Raft) AddServer(
 
 	// Add the configuration to the log.
 	r.appendConfiguration(&configuration)
+	r.configurationResponseCh = configurationFuture.responseCh
+	r.configurationResponseIndex = configuration.Index
 
 	r.configuration = &configuration
 	r.followers[id] = &follower{nextIndex: 1}
@@ -697,6 +702,8 @@ func (r *Raft) RemoveServer(id string, timeout time.Duration) Future[Configurati
 
 	// Add the configuration to the log.
 	r.appendConfiguration(&configuration)
+	r.configurationResponseCh = configurationFuture.responseCh
+	r.configurationResponseIndex = configuration.Index
 
 	r.sendAppendEntriesToPeers()
 
@@ -1871,8 +1878,17 @@ func (r *Raft) applyLoop() {
 			switch entry.EntryType {
 			case NoOpEntry:
 			case ConfigurationEntry:
+				// Respond to the membership change request that created this entry
+				// if it was submitted to this node.
+				var responseCh chan Result[Configuration]
+				if entry.Index == r.configurationResponseIndex {
+					responseCh = r.configurationResponseCh
+					r.configurationResponseCh = nil
+				}
 				r.applyConfiguration(entry.Data)
-				respond(r.configurationResponseCh, *r.configuration, nil)
+				if responseCh != nil {
+					respond(responseCh, r.configuration.Clone(), nil)
+				}
 			case OperationEntry:
 				responseCh := r.operationManager.pendingReplicated[entry.Index]
 				delete(r.operationManager.pendingReplicated, entry.Index)
@@ -2031,6 +2047,7 @@ func (r *Raft) becomeFollower(leaderID string, term uint64) {
 	// Cancel any pending operations.
 	r.operationManager.notifyLostLeaderShip(r.id, r.leaderID)
 	r.operationManager = newOperationManager(r.options.leaseDuration)
+	r.cancelConfigurationRequest()
 
 	r.logger.Infof("entered the follower state: term = %d", r.currentTerm)
 }
@@ -2044,8 +2061,18 @@ func (r *Raft) stepdown() {
 	// Cancel any pending operations.
 	r.operationManager.notifyLostLeaderShip(r.id, r.leaderID)
 	r.operationManager = newOperationManager(r.options.leaseDuration)
+	r.cancelConfigurationRequest()
 
 	r.logger.Info("stepped down to the follower state")
+}
+
+// cancelConfigurationRequest responds to a pending membership change request
+// with an error when this node is no longer the leader.
+func (r *Raft) cancelConfigurationRequest() {
+	if r.configurationResponseCh != nil {
+		respond(r.configurationResponseCh, Configuration{}, ErrNotLeader)
+		r.configurationResponseCh = nil
+	}
 }
 
 // tryApplyReadOnlyOperations renews the lease and notifies the read-only
